@@ -27,6 +27,26 @@ inductive JV where
   | obj (kvs : List (Bytes × JV))
 deriving Repr, Inhabited
 
+mutual
+/-- structural equality test (computable; `JV` is a nested inductive, so no derived `DecidableEq`) -/
+def JV.beq : JV → JV → Bool
+  | .null, .null => true
+  | .bool a, .bool b => a == b
+  | .num a, .num b => a == b
+  | .str a, .str b => a == b
+  | .arr xs, .arr ys => JV.beqList xs ys
+  | .obj xs, .obj ys => JV.beqMembers xs ys
+  | _, _ => false
+def JV.beqList : List JV → List JV → Bool
+  | [], [] => true
+  | x :: xs, y :: ys => JV.beq x y && JV.beqList xs ys
+  | _, _ => false
+def JV.beqMembers : List (Bytes × JV) → List (Bytes × JV) → Bool
+  | [], [] => true
+  | (k, x) :: xs, (l, y) :: ys => k == l && JV.beq x y && JV.beqMembers xs ys
+  | _, _ => false
+end
+
 /-! ## hex helpers -/
 
 def hexDigit (n : Nat) : Char :=
